@@ -421,3 +421,25 @@ func resolvedCallID(c *ssa.CallCommon, depth int) funcID {
 	}
 	return resolvedCallID(inner, depth+1)
 }
+
+// edgeOnPath is edgeTaken for the step path[i] -> path[i+1], looking through a condition that is a phi of a
+// short-circuit expression kept in a variable: the phi is replaced by the operand of the edge the path came through.
+// infeasible reports that the operand is a boolean constant contradicting the edge taken.
+func edgeOnPath(path cfgPath, i int) (cond ssa.Value, isTrue bool, ok bool, infeasible bool) {
+	if i+1 >= len(path) {
+		return nil, false, false, false
+	}
+	cond, isTrue, ok = edgeTaken(path[i], path[i+1])
+	if !ok {
+		return
+	}
+	if ph, isPhi := cond.(*ssa.Phi); isPhi && ph.Block() == path[i] && i > 0 {
+		if pi := predIndex(path[i], path[i-1]); pi >= 0 {
+			cond = ph.Edges[pi]
+		}
+	}
+	if k, isConst := cond.(*ssa.Const); isConst && k.Value != nil && k.Value.Kind() == constant.Bool {
+		return cond, isTrue, false, constant.BoolVal(k.Value) != isTrue
+	}
+	return cond, isTrue, true, false
+}
